@@ -3,6 +3,7 @@
 //!   harness probes   (print probe names)
 mod drivers;
 mod gen;
+mod hint;
 mod rec;
 
 use std::fs::File;
